@@ -425,6 +425,32 @@ pub fn run(g: &mut Global) {
     let tier = g.tier;
     g.random("random", g.tier.pick(120000, 600000), &move || strategy(tier), &check);
     g.random("long", g.tier.pick(64, 800), &long_strategy, &check);
+    // window-less period arguments at the top of the usize range (2^31, 2^32, 2^32+1, 2^33, 2^40, 2^53+1, 2^63,
+    // MAX-1, MAX): valid configurations like any other — a period converted through a narrower integer type or
+    // rounded on its way to the smoothing factor builds without complaint and computes something else
+    const BP: [usize; 9] = [1 << 31, 1 << 32, (1 << 32) + 1, 1 << 33, 1 << 40, (1 << 53) + 1, usize::MAX / 2 + 1, usize::MAX - 1, usize::MAX];
+    g.exhaustive(
+        "boundary_periods",
+        9 * 6 * 2,
+        &|i| {
+            let b = BP[(i % 9) as usize];
+            let cfg = match (i / 9) % 6 {
+                0 => Cfg { kind: Kind::Ema, p: vec![b], m: X(0.0) },
+                1 => Cfg { kind: Kind::Atr, p: vec![b], m: X(0.0) },
+                2 => Cfg { kind: Kind::Kc, p: vec![b], m: X(2.0) },
+                3 => Cfg { kind: Kind::Macd, p: vec![b, 26, 9], m: X(0.0) },
+                4 => Cfg { kind: Kind::Macd, p: vec![12, b, 9], m: X(0.0) },
+                _ => Cfg { kind: Kind::Macd, p: vec![12, 26, b], m: X(0.0) },
+            };
+            let vals: Vec<f64> = (0..60).map(|j| 100.0 + if j % 2 == 0 { 10.0 } else { -7.5 } + j as f64 * 0.37).collect();
+            if i / 54 == 0 {
+                Case { cfg, scalar: true, xs: xs(&vals), bars: vec![] }
+            } else {
+                Case { cfg, scalar: false, xs: vec![], bars: vals.iter().map(|&x| RawBar { o: x, h: x + 2.0, l: x - 1.5, c: x + 0.5, v: 1.0 }).collect() }
+            }
+        },
+        &check,
+    );
     // exact arithmetic: periods 1, 3, 7, 15 (alpha = 1, 1/2, 1/4, 1/8) on small-integer prices, where two different
     // averages become bit-equal in the middle of a stream (a shortcut keyed to "fast == slow" or "value unchanged"
     // fires there and nowhere on continuous data); every sequence of 6 prices over {1,2,3,4}
